@@ -6,10 +6,9 @@ META = {
     "note": 'Trusts the 10-line expiry predicate and the virtual clock shim. Presence is observed through StorageServer.get_shares() and reads through get_buckets()/slot_readv(). One crawl cycle without restarts (restart behaviour is C27).',
 }
 LEVEL = "exploration"
-BUDGET = {"quick": 40, "thorough": 240}
+BUDGET = {"quick": 45, "thorough": 300}   # quick is a fixed list of 88 configurations (~25 s); the budget is a guard
 SHARDS = {"quick": 1, "thorough": 8}
 
-import itertools
 import os
 import shutil
 import struct
@@ -149,7 +148,7 @@ def build_population(cfg, now, rng, tier, shared_cancel_only=False):
         # zero leases (generated, observed, not judged)
         new(k, [], "zero-leases")
     # seeded random lease sets
-    for _ in range(10 if tier == "quick" else 40):
+    for _ in range(10 if tier == "quick" else 150):
         k = rng.choice(kinds)
         n = rng.randint(1, 5)
         ds = [rng.choice(DELTAS) if rng.random() < .7 else rng.randint(-2 * YEAR, YEAR) for _ in range(n)]
@@ -185,7 +184,6 @@ def run(ck):
                "crawl cycle runs at `now` and another at now+2y. distinct = (configuration, share kind, renewal offsets); "
                "non-trivial = expiration enabled and at least one expired lease on the share")
     saved = (expirer_mod.time, lease_mod.time, crawler_mod.time)
-    rng = ck.rng("c26")
     base_now = int(env.EPOCH) + 3 * YEAR          # ~1.79e9; leases go back to now-3y (~1.70e9)
     nows = [base_now, base_now + 123456789 // 7]
     cfgs = []
@@ -193,9 +191,7 @@ def run(ck):
         for c in all_configs(now):
             c = dict(c, now=now)
             cfgs.append(c)
-    if ck.tier == "quick":
-        # all 88 configurations; the seed only rotates the random lease sets
-        pass
+    # quick: all 88 configurations at one `now`; the seed only rotates the random lease sets
     complete = True
 
     def present(ss, share):
@@ -234,7 +230,7 @@ def run(ck):
                                expiration_cutoff_date=cfg["cutoff"],
                                expiration_sharetypes=cfg["sharetypes"], clock=clock)
             shares = build_population(cfg, now, ck.rng("pop", ci, ck.seed), ck.tier, shared_only)
-            if not cfg["enabled"] and ck.tier == "quick":
+            if (not cfg["enabled"] or not cfg["sharetypes"]) and ck.tier == "quick":
                 # nothing may ever be deleted here whatever the leases: a third of the population is enough
                 keep = [s for i, s in enumerate(shares) if i % 3 == ci % 3 or s.tag == "bucket-with-two-shares"]
                 shares = keep
@@ -321,6 +317,7 @@ def run(ck):
                     break
                 ck.hit("full-cycle-completed")
                 deleted_n = 0
+                kept_expired = []            # (what, witness) of expired shares that survived this cycle
                 for s in shares:
                     if s.gone:
                         continue
@@ -377,17 +374,20 @@ def run(ck):
                         cls = "all-expired"
                         ck.hit("all-leases-expired")
                         if here:
-                            if cfg["mode"] == "age" and cfg["override"] is None:
-                                k = "age-mode-no-override-never-expires"
-                            else:
-                                k = "expired-share-kept"
-                            ck.violation(k, "%s share (%s) with every lease expired (%s) still present after full cycle %d"
-                                         % (s.kind, s.tag, describe(cfg), cycle_no), wit)
+                            kept_expired.append(("%s share (%s) with every lease expired (%s) still present after full "
+                                                 "cycle %d" % (s.kind, s.tag, describe(cfg), cycle_no), wit))
                     else:
                         cls = "edge"
                         ck.skip("lease-exactly-at-threshold")
                     ck.case(cls, key=key, nontrivial=nontrivial,
                             sample=dict(wit, lease_age_days=wit["lease_age_days"][:5]))
+                # one key per mechanism: "never expires" = age mode without override and the cycle deleted nothing
+                # at all although shares were due; anything else is a plain "expired share kept"
+                for what, wit in kept_expired:
+                    if cfg["mode"] == "age" and cfg["override"] is None and deleted_n == 0:
+                        ck.violation("age-mode-no-override-never-expires", what, wit)
+                    else:
+                        ck.violation("expired-share-kept", what, wit)
                 # crawler's own account of what it deleted (observation only)
                 try:
                     hist = lc.get_state()["history"][str(cycle_no)]["space-recovered"]
@@ -407,13 +407,15 @@ def run(ck):
     for ci, cfg in enumerate(cfgs):
         if not ck.mine(ci):
             continue
-        if ck.out_of_time():
+        if not ck.more(min_cases=10 ** 9):     # fixed list: only 4x the budget stops it (loaded machine)
             complete = False
             break
-        one_config(ci, cfg)
+        with ck.watchdog(300, "configuration %d" % ci):
+            one_config(ci, cfg)
     # leases sharing a cancel secret: observation only (cancel_lease() removes every lease with that secret)
     for ci, cfg in enumerate(cfgs):
-        if cfg["enabled"] and cfg["sharetypes"] == ("mutable", "immutable") and ck.mine(ci) and not ck.out_of_time() \
+        if cfg["enabled"] and cfg["sharetypes"] == ("mutable", "immutable") and ck.mine(ci) \
+                and ck.more(min_cases=10 ** 9) \
                 and (cfg["override"] in (None, 31 * DAY) if cfg["mode"] == "age" else cfg["cutoff_rel_days"] in (-31, 1)):
             one_config(1000 + ci, cfg, shared_only="one-valid")
             one_config(2000 + ci, cfg, shared_only="both-expired")
@@ -423,3 +425,16 @@ def run(ck):
     ck.require_reach("full-cycle-completed", "all-leases-expired", "valid-lease-among-expired",
                      "sharetype-filter-decides", "lease-renewed-through-renew_lease",
                      "lease-renewed-through-add_lease")
+
+
+# MUST_CATCH  (selftest/breaks_c26.py; run on a base = /repo/src + the proposed one-line expirer fix, quick tier)
+#  unchanged tree: age mode without override, age compared with an absolute timestamp -> age-mode-no-override-never-expires CAUGHT
+#  c26-cutoff-comparison-inverted                 -> deleted-with-unexpired-lease, expired-share-kept     CAUGHT
+#  c26-sharetype-filter-ignored                   -> deleted-although-sharetype-not-enabled               CAUGHT
+#  c26-one-expired-lease-cancels-all              -> deleted-with-unexpired-lease                         CAUGHT
+#  c26-enabled-flag-ignored                       -> deleted-although-expiration-disabled                 CAUGHT
+#  c26-age-limit-2s-early / c26-cutoff-2s-late    -> deleted-with-unexpired-lease                         CAUGHT
+#  c26-age-limit-2s-late                          -> expired-share-kept                                   CAUGHT
+#  c26-immutable-not-unlinked-after-last-lease    -> expired-share-kept                                   CAUGHT
+#  c26-mutable-unlinked-after-any-cancel          -> lease-crawler-raises (2nd cancel on a deleted file)  CAUGHT
+#  c26-override-ignored                           -> deleted-with-unexpired-lease, expired-share-kept     CAUGHT
